@@ -54,6 +54,7 @@ var gens = []generator{
 	{file: "OriginReader.lean", src: "seqio/genbank_subparsers.go (makeGenbankOriginParser)", run: genOriginReader},
 	{file: "PanicSites.lean", src: "the parser files anchored by C07", run: genPanicSites},
 	{file: "CacheFile.lean", src: "cmd/cache/header.go, cmd/cache/file.go, cmd/gts/io.go", run: genCacheFile},
+	{file: "KeyEnc.lean", src: "cmd/gts/io.go (exact, encodePayload)", run: genKeyEnc},
 	{file: "GoList.lean", src: "(fixed prelude: Go's slice and map operations on lists)", run: genGoList},
 	{file: "SortSearch.lean", src: "$GOROOT/src/sort/search.go (sort.Search)", run: genSortSearch},
 	{file: "FeatLess.lean", src: "feature.go (FeatureSlice.Less)", run: genFeatLess},
